@@ -10,6 +10,7 @@ import (
 	"path/filepath"
 	"strings"
 	"sync"
+	"time"
 
 	"verif/mc/internal/common"
 	"verif/mc/internal/drv"
@@ -1488,6 +1489,9 @@ T:
 
 // c10Generated runs both families in-process under default and scan-tests, and on disk with both
 // real drivers (quick: the core subset; thorough: everything).
+// c10InProcessHang bounds one in-process analysis of a generated program (each normally takes a few milliseconds).
+const c10InProcessHang = 90 * time.Second
+
 func c10Generated(run *common.Run, root string, thorough bool) {
 	gens := append(c10P1(), c10P2()...)
 	run.Count("generated_programs", len(gens))
@@ -1500,10 +1504,29 @@ func c10Generated(run *common.Run, root string, thorough bool) {
 		}
 		loaded[i] = ld
 	}
+	inProcessHung := false
 	for _, cfg := range c09Configs[:2] {
+		if inProcessHung {
+			break
+		}
 		c09SetInProcessConfig(cfg)
 		for i, g := range gens {
-			res := prog.Analyze(loaded[i], prog.Opts{})
+			if inProcessHung {
+				break // whatever blocked the analysis (a leaked lock, a spinning goroutine) stays in this process
+			}
+			// watchdog: these programs take milliseconds; an analysis that is still running after the bound is a hang
+			var res *prog.Result
+			done := make(chan struct{})
+			go func() { defer close(done); res = prog.Analyze(loaded[i], prog.Opts{}) }()
+			select {
+			case <-done:
+			case <-time.After(c10InProcessHang):
+				inProcessHung = true
+				run.Report(common.Cex{Sig: "hang|where=" + g.Shape + "|in-process",
+					Summary: fmt.Sprintf("in-process analysis of generated program %s (%s) did not finish within %s (the previous %d programs took milliseconds each)", g.Shape, cfg.Name, c10InProcessHang, i),
+					Detail:  map[string]any{"program": g.P.Text(), "config": cfg.Name}})
+				continue
+			}
 			if res.Panic != "" {
 				// second execution before it is believed; also yields the stack
 				_, _, ptxt, stack := c10Analyze(loaded[i].Pkgs)
